@@ -38,6 +38,8 @@ def _ir_refs(path):
     if r.returncode != 0:
         raise RuntimeError('clang -emit-llvm failed for %s: %s' % (path, r.stderr[-800:]))
     refs = {}; cur = None
+    funcs = set(re.findall(r'^(?:define|declare)\s.*?@([A-Za-z_$][\w$.]*)\s*\(', r.stdout, flags=re.M))
+    refs['<functions>'] = funcs
     for line in r.stdout.splitlines():
         if line.startswith('define '):
             m = re.search(r'@([A-Za-z_$][\w$.]*)\s*\(', line)
@@ -67,13 +69,14 @@ def _make_body():
         p = os.path.join(G.REPO, 'src', 'user', f + '.c')
         if not os.path.exists(p):
             continue
-        for caller, syms in _ir_refs(p).items():
+        refs = _ir_refs(p); funcs = refs.pop('<functions>')
+        for caller, syms in refs.items():
             for s in syms:
                 if s in CALLEES and s != caller:
                     callsites.add((FID[s],) + tuple(_enc(caller)))
             if caller == 'supla_esp_on_remote_call_received':
                 for s in syms:
-                    if not s.startswith(('.str', 'llvm.', '__func__', '__FUNCTION__', '__PRETTY')) and s not in ('devconn',):
+                    if s in funcs and not s.startswith('llvm.'):      # functions only (not the static variables / string constants)
                         dispatch.add(tuple(_enc(s)))
     body = ''.join(_row('CALLSITES', r) for r in sorted(callsites))
     body += ''.join(_row('DISPATCH', r) for r in sorted(dispatch))
